@@ -2,6 +2,7 @@ package disk
 
 import (
 	"fmt"
+	"math"
 
 	"golang.org/x/sys/unix"
 )
@@ -12,6 +13,11 @@ type FileDisk struct {
 }
 
 func NewFileDisk(path string, numBlocks uint64) (FileDisk, error) {
+	// numBlocks*BlockSize must be a file offset; checked before the file is
+	// created or resized, since the product wraps around from 2^52 blocks on
+	if numBlocks > math.MaxInt64/BlockSize {
+		return FileDisk{}, fmt.Errorf("disk of %d blocks is too large", numBlocks)
+	}
 	fd, err := unix.Open(path, unix.O_RDWR|unix.O_CREAT, 0666)
 	if err != nil {
 		return FileDisk{}, err
